@@ -50,7 +50,7 @@ def check_chain(where, sol, ice, src, dst, tol=1e-6):
             if not np.allclose([db[0], db[1], -db[2]], da, rtol=0, atol=tol):
                 raise Divergence(where + ' mirror law at junction %d' % k, list(da * [1, 1, -1]), list(db))
         else:
-            if abs(na * ha - nb * hb) > tol * max(na, nb):
+            if not (abs(na * ha - nb * hb) <= tol * max(na, nb)):
                 raise Divergence(where + " Snell's law at junction %d (n sin theta)" % k, float(na * ha), float(nb * hb))
             if ha > 1e-9 and hb > 1e-9 and not np.allclose(da[:2] / ha, db[:2] / hb, rtol=0, atol=tol):
                 raise Divergence(where + ' azimuth at junction %d' % k, list(da[:2] / ha), list(db[:2] / hb))
@@ -150,7 +150,7 @@ def split_checks(rng, n_uniform=12, n_exp=6):
                                  [(float(s.path_length), float(s.tof)) for s in sols])
             fs, fp = m[0].fresnel
             rs, rp = r.fresnel
-            if abs(fs - rs) > 1e-9 or abs(fp - rp) > 1e-9:
+            if not (abs(fs - rs) <= 1e-9 and abs(fp - rp) <= 1e-9):
                 raise Divergence(where + ' unit transmission through the artificial boundary (fresnel)', (complex(rs), complex(rp)), (complex(fs), complex(fp)))
         for s in sols:
             check_chain(where, s, lay, src, dst)
